@@ -12,7 +12,7 @@ from collections import defaultdict
 from vlib import env, gens, refcat
 
 HOSTILE = list("()[]{}<>&'\"/\\|,.;:-_*=#!?%$@^~`+")
-SPECIAL = ['->-', '-<-', '-a>b-', '<->', '()', '{}', '[]', '){', 'f(x)', ':-)', '1)a', 'km/', 'a/b/', '<b>', '-', '--', '&', '&amp;', '_(', '*']
+SPECIAL = ['x[conj]', 'a)(b', '->-', '-<-', '-a>b-', '<->', '()', '{}', '[]', '){', 'f(x)', ':-)', '1)a', 'km/', 'a/b/', '<b>', '-', '--', '&', '&amp;', '_(', '*']
 BRACKET_WORDS = ['(', ')', '[', ']', '{', '}', '-LRB-', '-RRB-', '-LCB-', '-RCB-', '-LSB-', '-RSB-']
 CJK = list('日本語の文章東京は晴れ猫犬')
 COMBINING = ['é', 'ñ', 'ä']
@@ -267,7 +267,7 @@ def arbitrary_tree(rng, lang, token_fn, max_leaves=7, labels=None, tokens=None):
     """arbitrary well-formed tree: random shape, inventory categories, random labels and head flags"""
     from depccg.tree import Tree
     ix = index(lang)
-    labels = labels or list(ix.labels)
+    labels = labels or (list(ix.labels) + list(ix.labels_unreachable))      # arbitrary trees may carry every label the grammar has
     ulabels = [l for l in labels if l[1] == '<un>' or l[0].startswith('AD')] or [('lex', '<un>')]
     blabels = [l for l in labels if l not in ulabels] or labels
     functors = [c for c in ix.inventory if c.is_functor]
